@@ -135,7 +135,11 @@ def _get_binding(obj: tp.Callable) -> AbstractBinding:
         unmarshaller: unmarshals.AbstractUnmarshaller = unmarshals.unmarshaller(
             annotation
         )
-        binding[name] = binding[i] = unmarshaller
+        binding[i] = unmarshaller
+        # Only a parameter which can be passed by keyword is looked up by name - a keyword
+        #   named like a positional-only or variadic parameter belongs to `**kwargs`.
+        if param.kind in (param.POSITIONAL_OR_KEYWORD, param.KEYWORD_ONLY):
+            binding[name] = unmarshaller
         has_kwd_only = has_kwd_only or param.kind == inspect.Parameter.KEYWORD_ONLY
         has_pos_or_kwd = (
             has_pos_or_kwd or param.kind == inspect.Parameter.POSITIONAL_OR_KEYWORD
